@@ -144,6 +144,8 @@ func run(r *vk.Run) {
 	mixedSubscribers(r)
 	mixedValueSubscribers(r)
 	joinDuringWrite(r)
+	manyIds(r)
+	pullIDEndedThenWrites(r)
 	publishOrder(r)
 	lateSubscriber(r)
 	lossyValue(r)
@@ -746,6 +748,108 @@ func joinDuringWrite(r *vk.Run) {
 		}
 	}
 	r.Require("join-during-write-scenarios", 2)
+}
+
+// manyIds: a lossy subscriber that is not receiving while a great many DIFFERENT ids change: "however slowly a
+// subscriber receives, writes complete without waiting for it" has no bound on how much is pending. Afterwards the
+// drained stream folds to the listing.
+func manyIds(r *vk.Run) {
+	for i, n := range []int{600, 1500, 4000} {
+		if !r.Mine(i) {
+			continue
+		}
+		col := resource.NewCollection(resource.WithClock(clk{}))
+		ctx, cancel := context.WithCancel(context.Background())
+		c := newConsumer()
+		c.cancel = cancel
+		c.runCol(col.Pull(ctx))
+		if _, ok := r.MustQuiesce("c09-manyids-open"); !ok {
+			c.stop()
+			return
+		}
+		t := vk.Go(func() {
+			for k := 0; k < n; k++ {
+				col.Add(fmt.Sprintf("id%05d", k), mkValLocked("m"))
+			}
+		})
+		gs, ok := r.MustQuiesce("c09-manyids-write")
+		if !ok {
+			c.stop()
+			return
+		}
+		r.Eval(1)
+		r.Count("many-ids-scenarios", 1)
+		r.Distinct(fmt.Sprintf("manyids|%d", n))
+		if !t.Done() {
+			r.Violation("C09/writer-blocked/pull/lossy/many-ids", fmt.Sprintf("an idle lossy subscriber and %d Adds of different ids: the writer has not returned at the quiescent point (%d items stored)\n%s", n, len(col.List()), vk.DescribeGs(vk.LibraryGoroutines(gs, nil))), map[string]any{"ids": n})
+			c.grant(1 << 20)
+			t.Wait()
+			c.stop()
+			continue
+		}
+		c.grant(1 << 20)
+		if _, ok := r.MustQuiesce("c09-manyids-drain"); ok {
+			c.mu.Lock()
+			evs := append([]*resource.CollectionChange{}, c.colEv...)
+			c.mu.Unlock()
+			view := vk.NewView(true)
+			for _, e := range evs {
+				view.Apply(e)
+			}
+			if list := col.List(); !vk.SameList(view.Sorted(), list) {
+				r.Violation("C09/fold/collection/many-ids", fmt.Sprintf("%d Adds of different ids while the lossy subscriber was idle: the drained stream folds to %d items, List has %d", n, len(view.Sorted()), len(list)), map[string]any{"ids": n})
+			}
+		}
+		c.stop()
+	}
+}
+
+// pullIDEndedThenWrites: a backpressured PullID whose item is removed ends; whatever it was built on must end with it:
+// the writes that follow (to another item) return, and a backpressured Pull next to it gets every one of them.
+func pullIDEndedThenWrites(r *vk.Run) {
+	for i, bp := range []bool{true, false} {
+		if !r.Mine(i) {
+			continue
+		}
+		col := resource.NewCollection(resource.WithClock(clk{}), resource.WithInitialRecord("a", mkValLocked("a")), resource.WithInitialRecord("b", mkValLocked("b")))
+		ctx, cancel := context.WithCancel(context.Background())
+		single, all := newConsumer(), newConsumer()
+		single.cancel, all.cancel = cancel, cancel
+		single.runVal(col.PullID(ctx, "a", resource.WithBackpressure(bp)))
+		all.runCol(col.Pull(ctx, resource.WithBackpressure(true), resource.WithUpdatesOnly(true)))
+		single.grant(1 << 20)
+		all.grant(1 << 20)
+		stopAll := func() { single.stop(); all.stop() }
+		if _, ok := r.MustQuiesce("c09-pullid-ended-open"); !ok {
+			stopAll()
+			return
+		}
+		t := vk.Go(func() {
+			col.Update("a", mkValLocked("a"))
+			col.Delete("a")
+			for k := 0; k < 5; k++ {
+				col.Update("b", mkValLocked("b"))
+			}
+		})
+		gs, ok := r.MustQuiesce("c09-pullid-ended-write")
+		if !ok {
+			stopAll()
+			return
+		}
+		r.Eval(1)
+		r.Count("pullid-ended-then-writes-scenarios", 1)
+		r.Distinct(fmt.Sprintf("pullidended|%v", bp))
+		mode := map[bool]string{true: "bp", false: "lossy"}[bp]
+		if !t.Done() {
+			r.Violation("C09/writer-blocked/pullid/"+mode+"/after-it-ended", fmt.Sprintf("PullID(a) (%s, consumer receiving) ended when a was deleted; of the five updates of b that follow the writer is still in one at the quiescent point\n%s", mode, vk.DescribeGs(vk.LibraryGoroutines(gs, nil))), map[string]any{"bp": bp})
+			stopAll()
+			return // the stuck goroutines stay
+		}
+		if n := all.nCol(); n != 7 {
+			r.Violation("C09/dropped-with-backpressure/pull/next-to-an-ended-pullid", fmt.Sprintf("a backpressured updates-only Pull next to a PullID(a) (%s) that ended by removal received %d events for 7 writes", mode, n), map[string]any{"bp": bp})
+		}
+		stopAll()
+	}
 }
 
 // publishOrder: writers queue behind a delivery that a backpressured, momentarily idle subscriber is holding up;
